@@ -305,6 +305,59 @@ func ruleR16_1(w *World, r *Report) {
 	r.Check(good, "PushPullHandler.finalize/one reply on every path", pos, fmt.Sprintf("%d return(s), each path sends once", len(rets)), detail)
 	// (c) unlock iff locked
 	ruleLockedParam(u, r, fin, def)
+	// (d) recover() only stops a panic when the deferred function itself calls it: a recover moved into a helper
+	// that the deferred function calls returns nil, the panic goes on and takes the process down
+	nRec := 0
+	for _, f := range u.ordaFuncs(func(p string) bool { return true }) {
+		var rec ssa.Instruction
+		forEachOwnInstr(f, func(in ssa.Instruction) {
+			if c, ok := in.(*ssa.Call); ok {
+				if b, isB := c.Call.Value.(*ssa.Builtin); isB && b.Name() == "recover" {
+					rec = in
+				}
+			}
+		})
+		if rec == nil {
+			continue
+		}
+		nRec++
+		deferred, plain := false, ""
+		for _, g := range u.ordaFuncs(func(p string) bool { return true }) {
+			for _, h := range withClosures(g) {
+				forEachOwnInstr(h, func(in ssa.Instruction) {
+					ci, ok := in.(ssa.CallInstruction)
+					if !ok {
+						return
+					}
+					hit := staticCallee(ci) == f
+					if mc, isMC := ci.Common().Value.(*ssa.MakeClosure); isMC && mc.Fn == ssa.Value(f) {
+						hit = true
+					}
+					if !hit {
+						return
+					}
+					if _, isDefer := in.(*ssa.Defer); isDefer {
+						deferred = true
+					} else {
+						plain = fnName(h)
+					}
+				})
+			}
+		}
+		r.Check(deferred && plain == "", fnName(f)+"/recover is called by the deferred function itself", u.Pos(rec.Pos()), "deferred directly",
+			"recover() is called in "+fnName(f)+", which is "+map[bool]string{true: "also ", false: ""}[deferred]+"called as an ordinary function (from "+plain+"): recover only stops a panic when the deferred function calls it directly, so the panic escapes and ends the server process")
+	}
+	if fin != nil {
+		own := false
+		forEachOwnInstr(fin, func(in ssa.Instruction) {
+			if c, ok := in.(*ssa.Call); ok {
+				if b, isB := c.Call.Value.(*ssa.Builtin); isB && b.Name() == "recover" {
+					own = true
+				}
+			}
+		})
+		r.Check(own, "PushPullHandler.finalize/recovers", u.Pos(fin.Pos()), "the exit function calls recover()", "the deferred exit function of the handler goroutine does not call recover() itself: a panic while handling a request ends the server process")
+	}
 }
 
 // ruleLockedParam: the deferred exit function receives the TryLock result and unlocks exactly on
